@@ -1684,7 +1684,7 @@ def int_param_functions(F):
     return out
 
 
-def rule_int_total(prop, repo, entries):
+def rule_int_total(prop, repo, entries, optional=()):
     """No assertion (bounds or overflow) can fail for any integer argument of these entry points."""
     F = repo.F
     R = Rule("R-TOTAL-INT", "entry points with integer arguments: every bounds / overflow assertion met (callees with integer parameters analysed in context) holds for "
@@ -1693,6 +1693,9 @@ def rule_int_total(prop, repo, entries):
     for path in entries:
         b = F.bodies.get(path)
         R.instance()
+        if b is None and path in optional:
+            R.ok(sample={"entry": path, "present": False, "note": "crate-internal helper that need not exist: the public entry point that used it is analysed with whatever it calls now"})
+            continue
         if b is None:
             R.fail_closed("%s:int-total:%s" % (prop, path), "%s not found" % path)
             continue
